@@ -205,6 +205,39 @@ def check_linear(a, rname, mspec, bc, res=None, src=False):
     return out
 
 
+def check_gear_solve(a, rname, mspec, res=None):
+    """gear driven by solve(): whatever save times are asked for (one inside the very first step, none), the state after 3 iterations is the
+    Crank-Nicolson start followed by two BDF2 steps of the linear problem (read from the solver's final state Qn)"""
+    mesh = space.mesh_spec(mspec)
+    n = mesh.ncell
+    model, disc = space.build_1d(("convection", a), None, rname, mesh, "per", "per")
+    A, r0 = op_matrix(disc, model, mesh)
+    out = []
+    dxmin = float(np.min(mesh.vol()))
+    Q0 = np.array([space.S_QUICK[(3 * i + 1) % 5] for i in range(n)], float)
+    I = np.eye(n)
+    for cfl in (0.5, 10.0):
+        dt = cfl * dxmin / abs(a)
+        q1 = Q0 + np.linalg.solve(I - 0.5 * dt * A, dt * (A @ Q0))
+        q2 = np.linalg.solve(1.5 * I - dt * A, 2.0 * q1 - 0.5 * Q0)
+        q3 = np.linalg.solve(1.5 * I - dt * A, 2.0 * q2 - 0.5 * q1)
+        for label, ts in (("no save times", []), ("a save time inside the first step", [0.4 * dt]), ("save times inside the first and second step", [0.4 * dt, 1.7 * dt])):
+            solver = space.integ.gear(mesh, disc)
+            f = space.field.fdata(model, mesh, [Q0.copy()])
+            with np.errstate(all="ignore"), core.time_limit(20.0):
+                solver.solve(f, cfl, ts, stop={"maxit": 3, "tottime": 1e30})
+            got = np.asarray(solver.Qn.data[0], float)
+            err = np.abs(got - q3).max() / np.abs(Q0).max()
+            if res is not None:
+                res.evals += 1
+                res.worst("gear-solve/tau", err / (LIN * (1 + cfl)))
+            if not err <= LIN * (1 + cfl):
+                out.append(("C06/linear/gear/solve-driver", "gear a=%g %s mesh %r cfl %g, solve with %s: the state after 3 iterations is off the Crank-Nicolson + BDF2 recurrence by %.3g" % (
+                    a, rname, mspec, cfl, label, err)))
+                break
+    return out
+
+
 def check_fourier(a, rname, n, res=None):
     mesh = space.mesh1.unimesh(ncell=n, length=float(n))
     model, disc = space.build_1d(("convection", a), None, rname, mesh)
@@ -500,6 +533,10 @@ def shard_linear(arg):
             res.nontrivial += 1
             for s, w in check_linear(a, rname, mspec, bc, res, src=True):
                 res.violation(s.replace("C06/linear/", "C06/linear/with-linear-source/"), w, {"kind": "lin", "a": a, "recon": rname, "mesh": mspec, "bc": bc, "src": True})
+    for mspec in (("uni", 4, 1.0, -4.0), ("w", (2.0, 0.5, 1.0))):
+        res.nontrivial += 1
+        for s, w in check_gear_solve(a, rname, mspec, res):
+            res.violation(s, w, {"kind": "gearsolve", "a": a, "recon": rname, "mesh": mspec})
     for n in (4, 6, 8):
         for s, w in check_fourier(a, rname, n, res):
             res.violation(s, w, {"kind": "fourier", "a": a, "recon": rname, "n": n})
@@ -570,6 +607,8 @@ def replay(case):
         v = check_linear(case["a"], case["recon"], _tup(case["mesh"]), case["bc"], None, bool(case.get("src")))
         tag = "C06/linear/larger-system/" if case.get("larger") else "C06/linear/with-linear-source/" if case.get("src") else "C06/linear/"
         return [(s_.replace("C06/linear/", tag), w) for s_, w in v]
+    if k == "gearsolve":
+        return check_gear_solve(case["a"], case["recon"], _tup(case["mesh"]))
     if k == "fourier":
         return check_fourier(case["a"], case["recon"], case["n"])
     if k == "order":
